@@ -89,9 +89,9 @@ namespace chaiscript {
     /// case (most negative value / -1) both trap the CPU instead of yielding a value
     template<typename LHS, typename RHS>
     constexpr static inline void check_divide([[maybe_unused]] LHS t_lhs, [[maybe_unused]] RHS t_rhs) {
-      check_divide_by_zero(t_rhs);
 #ifndef CHAISCRIPT_NO_PROTECT_DIVIDEBYZERO
       if constexpr (!std::is_floating_point<LHS>::value && !std::is_floating_point<RHS>::value) {
+        check_divide_by_zero(t_rhs);
         using Common = decltype(t_lhs / t_rhs);
         if constexpr (std::is_signed<Common>::value) {
           if (static_cast<Common>(t_rhs) == static_cast<Common>(-1) && static_cast<Common>(t_lhs) == std::numeric_limits<Common>::min()) {
